@@ -293,7 +293,7 @@ class Sum(Type):
 
     def __init__(self, *types: Type):
         self.types = types
-        self.hash = hash(types)
+        self.hash = hash(frozenset(types))
 
     def all_versions(self) -> TList["Type"]:
         v = []
